@@ -34,6 +34,18 @@ func spinCases(tier string) []driver.Case {
 			sc = append(sc, fmt.Sprintf("%d %d C", 100*(i+1), 100*(i+1)+1))
 		}
 		cases = append(cases, driver.Case{ID: "spin/" + e.Name, Solo: true, P: map[string]string{"kind": "spin", "entry": e.Name, "scripts": strings.Join(sc, "|"), "rounds": fmt.Sprint(rounds), "concurrent": "1"}})
+		// the main source fails after two values, the others never end, and the observer takes its time (a few
+		// microseconds inside every callback): a failure that arrives while another source's value is being
+		// delivered still ends the output as an error
+		var se []string
+		for i := 0; i < e.NSrc; i++ {
+			if i == 0 {
+				se = append(se, "100 101 E")
+			} else {
+				se = append(se, fmt.Sprintf("%d %d %d", 100*(i+1), 100*(i+1)+1, 100*(i+1)+2))
+			}
+		}
+		cases = append(cases, driver.Case{ID: "spin-err/" + e.Name, Solo: true, P: map[string]string{"kind": "spin", "entry": e.Name, "scripts": strings.Join(se, "|"), "rounds": fmt.Sprint(rounds / 3), "dwell": "1", "concurrent": "1"}})
 	}
 	return cases
 }
@@ -48,6 +60,13 @@ func runSpin(c driver.Case) driver.Result {
 	traces := map[string]bool{}
 	for round := 0; round < rounds; round++ {
 		r := rec.New(e.Name)
+		if c.Get("dwell") != "" {
+			r.Dwell = func() {
+				for k := 0; k < 2000; k++ {
+					spinSink.Add(1)
+				}
+			}
+		}
 		b := &catalog.B{}
 		var srcs []*src.Source
 		for i := 0; i < e.NSrc; i++ {
